@@ -141,3 +141,24 @@ func vsVerifyPredicate(pk, msg, sig []byte, variant int, ctx string, zip215 bool
 	}
 	return ok
 }
+
+// A non-empty admissible context: either opaque (any length 1..255, content a sequence variable) or of a
+// concrete boundary length with symbolic bytes (so that code which copies or indexes the context is also
+// executed exactly).  quick: opaque, 1 and 255 bytes; thorough adds 2, 31, 32, 33, 127, 128, 254.
+var vCtxLensQuick = [...]int{0, 1, 255}
+var vCtxLensThorough = [...]int{0, 1, 255, 2, 31, 32, 33, 127, 128, 254}
+
+func vCtxString() string {
+	var n int
+	if vTier() == 0 {
+		n = vCtxLensQuick[vCase(0, len(vCtxLensQuick)-1)]
+	} else {
+		n = vCtxLensThorough[vCase(0, len(vCtxLensThorough)-1)]
+	}
+	if n == 0 {
+		ctx := vBlobString("ctx")
+		vAssume(len(ctx) >= 1 && len(ctx) <= 255)
+		return ctx
+	}
+	return string(vBytes("ctxb", n))
+}
